@@ -78,6 +78,13 @@ class Source:
         self.library = self.root.get("library", "")
         self.with_standard = self.root.get("withStandard", "")
         self.declared = {d.findtext("name") for d in self.root.iter("schemaAttributeDefinition")}
+        # older released versions of the same schema line (from the bundled file names)
+        prefix = f"HED_{self.library}_" if self.library else "HED"
+        vers = [f[len(prefix):-4] for f in core.bundled_files() if f.startswith(prefix) and (self.library or "_" not in f)]
+
+        def key(v):
+            return tuple(int(x) for x in v.split("."))
+        self.older_versions = sorted((v for v in vers if key(v) < key(self.version)), key=key, reverse=True)
         # attributes declared for other sections only (from the property lists of the attribute definitions)
         self.not_for_tags = []
         for d in self.root.iter("schemaAttributeDefinition"):
@@ -152,9 +159,20 @@ class Source:
                                 on_node(i, lambda r, node, a=a: (set_attr(node, a, "Zzq-no-such-tag"), name_of(r, node))[1]),
                                 ("Tags", d)))
             if "inLibrary" in self.declared or self.library:
-                foreign = "otherlib"
-                pos.append(("foreign-in-library", f"tag {nm}",
-                            on_node(i, lambda r, node: (set_attr(node, "inLibrary", foreign), name_of(r, node))[1]), ("Tags", d)))
+                foreigns = ["otherlib"]
+                if self.library:
+                    L = self.library
+                    foreigns += [L[1:], L[:-1], L[1:-1], L + "2", L.upper()]
+                for foreign in foreigns:
+                    pos.append(("foreign-in-library", f"tag {nm} = {foreign}",
+                                on_node(i, lambda r, node, foreign=foreign: (set_attr(node, "inLibrary", foreign),
+                                                                             name_of(r, node))[1]), ("Tags", d, foreign)))
+            if not n.findall("node") and self.older_versions and (libval or not self.library):
+                # a deprecatedFrom naming an older released version is legitimate, wherever the tag sits
+                for old in self.older_versions[:2]:
+                    pos.append(("valid:deprecated-from-older", f"leaf {nm} = {old}",
+                                on_node(i, lambda r, node, old=old: (set_attr(node, "deprecatedFrom", old), name_of(r, node))[1]),
+                                ("Tags", d, "valid")))
             if attr(n, "hedId") is not None:
                 pos.append(("hed-id-out-of-range", f"tag {nm}",
                             on_node(i, lambda r, node: (set_attr(node, "hedId", "HED_0000001"), name_of(r, node))[1]), ("Tags", d)))
@@ -341,6 +359,15 @@ def check_position(rec, src, kind, desc, mutate):
     except Exception as e:
         rec.violation(f"C14:{kind}:check-raises:{type(e).__name__}", error=repr(e)[:200], **where)
         rec.outcome(f"{kind}:raises")
+        return
+    if kind.startswith("valid:"):
+        # only the judgement of the value itself (a deprecated tag that other tags refer to is a different rule)
+        wrong = [i for i in issues if i["code"] == "SCHEMA_DEPRECATION_ERROR" and name_matches(i, name)
+                 and "deprecatedFrom" in i["message"]]
+        if wrong:
+            rec.violation(f"C14:{kind}:legitimate-value-reported:{section_of(desc)}", seeded_entry=name,
+                          message=wrong[0]["message"][:200], **where)
+        rec.outcome(f"{kind}:{'reported' if wrong else 'accepted'}")
         return
     hits = [i for i in issues if i["code"] in EXPECTED[kind]]
     named = [i for i in hits if name_matches(i, name)]
